@@ -38,6 +38,8 @@ CLAIMED = {
           "proof for all printable expression trees; tie by all trees up to a size bound over identifier-safe names", "C14"),
  "C15": C("Coq theorems (every instruction keeps objects well-formed and denoting the specified function; closure over every program; only the documented panic; diagrams determined by function) + differential correspondence on random programs",
           "proof for all finite programs over the instruction set (excluding the known-finding conversion D1 and the explicitly empty table); tie by random programs with full observation after every instruction", "C15"),
+ "C19": C("differential execution of the built extension module against the Rust API on the same scripted calls (every method; exception kinds), on top of the Coq theorems about the Rust-level operations (partial: PyO3 glue is runtime behaviour)",
+          "the property is itself a correspondence between two executables; the Rust side of every call is covered by the theorems of C01-C18 and the model correspondence, the Python side by executing every method of the three classes on the same inputs and comparing value for value; interpreter aborts are caught as failed shards", "C19"),
  "C20": C("Coq theorems (independence of hash-container iteration order; operands never altered) + repeated-process differential runs (partial: process-level randomness is exercised, not proved)",
           "proof that the model's results do not depend on the order of the hash containers the code builds and that registers are immutable; every call made twice per process and in several processes with fresh hash seeds must agree; source scan for interior mutability", "C20"),
  "C16": C("Coq theorems (import sound and complete w.r.t. 'the records describe a complete unambiguous table'; never panics; entry points agree) + differential correspondence",
